@@ -36,6 +36,7 @@ class SimClock:
         self.now = EPOCH
         self.on_sleep = None      # callback(d) -> recorded by the history
         self.overshoot = 0.0      # sleep(d) returns after d*(1+overshoot)
+        self.sched = None         # simthreads.ThreadSched while real caller threads are being scheduled
 
     def sleep(self, d):
         d = float(d)
@@ -43,7 +44,10 @@ class SimClock:
             raise ValueError("sleep length must be non-negative")
         if self.on_sleep is not None:
             self.on_sleep(d)
-        self.now += d * (1.0 + self.overshoot)
+        if self.sched is not None:
+            self.sched.wait(d * (1.0 + self.overshoot))     # park this caller thread; others run meanwhile
+        else:
+            self.now += d * (1.0 + self.overshoot)
 
     def monotonic(self):
         return self.now
@@ -52,7 +56,10 @@ class SimClock:
         return self.now
 
     def advance(self, d):
-        self.now += d
+        if self.sched is not None:
+            self.sched.wait(d)
+        else:
+            self.now += d
 
 
 CLOCK = SimClock()
